@@ -16,6 +16,8 @@ pub struct Adversary {
     cfg: Cfg,
     rng: Rng,
     client_addr: Option<String>,
+    /// the server's address (destination of the first datagram); the client may rebind, the server never does
+    server_addr: Option<String>,
     seen: Vec<Packet>,
     serial: u64,
 }
@@ -26,6 +28,7 @@ impl Adversary {
             cfg: cfg.clone(),
             rng: Rng(crate::cfg::mix(cfg.seed ^ 0xadad_adad)),
             client_addr: None,
+            server_addr: None,
             seen: vec![],
             serial: 0,
         }
@@ -75,7 +78,10 @@ impl Network for Adversary {
             if self.client_addr.is_none() {
                 self.client_addr = Some(src.clone());
             }
-            let c2s = self.client_addr.as_deref() == Some(src.as_str());
+            if self.server_addr.is_none() {
+                self.server_addr = Some(dst.clone());
+            }
+            let c2s = self.client_addr.as_deref() == Some(src.as_str()) || self.server_addr.as_deref() == Some(dst.as_str());
             let len = packet.payload.len();
             let hd = head(&packet.payload);
             let log = |action: &str, at: Option<u64>| {
